@@ -1,7 +1,7 @@
 """C01, C02, C03, C10, C15 — creation properties, engine E1 (R + S)."""
 import os
 
-from mc import core, e1, tf, world, seams
+from mc import core, e1, e2, fsshim, tf, world, seams
 from mc.ref import bencode, bep, model
 
 REAL_B = e1.REAL_B
@@ -13,9 +13,14 @@ CONFIG = {
     "C02": [("Assembler2", "Assembler2", {}, "v2"),
             ("Assembler3", "Assembler3", {}, "v2"),
             ("TorrentFileV2", "TorrentFileV2", {}, "v2"),
-            ("TorrentFileHybrid", "TorrentFileHybrid", {}, "v2")],
+            ("TorrentFileHybrid", "TorrentFileHybrid", {}, "v2"),
+            ("Assembler2+align", "Assembler2", {"align": True}, "v2")],
     "C03": [("Assembler3", "Assembler3", {}, "hy"),
-            ("TorrentFileHybrid", "TorrentFileHybrid", {}, "hy")],
+            ("TorrentFileHybrid", "TorrentFileHybrid", {}, "hy"),
+            # --align is documented as ignored for v2 / hybrid
+            ("Assembler3+align", "Assembler3", {"align": True}, "hy"),
+            ("TorrentFileHybrid+align", "TorrentFileHybrid", {"align": True},
+             "hy")],
     "C10": [],
 }
 
@@ -100,6 +105,9 @@ class CreateCheck:
             "on the CLI sub-catalogue every creator is also called with the "
             "path as pathlib.Path, through the `content` alias, and with the "
             "piece length as text / as exponent; results must be identical",
+            "environment faults during creation (one per execution): a payload "
+            "file that cannot be opened, a failing read, a progress line that "
+            "cannot be written -- if a metafile results it must be a true one",
             "a sub-catalogue with all-zero file contents and one with a "
             "content root whose name has dots and a space",
             "long single files in S: every size up to 2200 (thorough 4200) "
@@ -213,6 +221,14 @@ class CreateCheck:
                                "P": P, "shape": sh, "alpha": alpha,
                                "first": g["first"], "seed": seed,
                                "listing": "native", "cli": True})
+        # environment faults while creating (E2, one fault per execution): a
+        # payload file that cannot be opened, a read that fails, a progress
+        # line that cannot be written
+        if pid in CONFIG and CONFIG[pid]:
+            for label, creator, kw, oracle in CONFIG[pid]:
+                for progress in (0, 1, 2):
+                    gs.append({"kind": "iofault", "label": label,
+                               "progress": progress, "seed": seed})
         # auto piece length + CLI route (R)
         for sh in ("S1", "D2n", "D3"):
             alpha = e1.r_alphabet(16384, "quick", 3)
@@ -364,7 +380,101 @@ class CreateCheck:
         return sorted((label, p) for label, probs in obs.items()
                       for p, _ in probs)
 
+    def run_iofault(self, g):
+        res = core.Result()
+        seed = g["seed"]
+        P = 16384
+        spec = [c for c in CONFIG[self.id] if c[0] == g["label"]][0]
+        label, creator, kw, oracle = spec
+        w = {"scale": "R", "B": REAL_B, "P": P, "shape": "D3",
+             "sizes": [P + 1, 5, 2 * P]}
+        files = world.files_of(w, seed)
+        tree = dict(files)
+
+        class FaultyOut:
+            def __init__(self, run):
+                self.run = run
+
+            def write(self, text):
+                if self.run.choose(2, "stdout-write") == 1:
+                    raise BlockingIOError(11, "Resource temporarily "
+                                              "unavailable")
+                return len(text)
+
+            def flush(self):
+                pass
+
+            def isatty(self):
+                return False
+
+        def one(run):
+            parent = world.fresh_dir("iof_")
+            payload_parent = os.path.join(parent, "payload")
+            os.mkdir(payload_parent)
+            path = world.materialize(files, payload_parent)
+            of = os.path.join(parent, "o.torrent")
+            tf.reset_process_state()
+            import sys
+            so, se = sys.stdout, sys.stderr
+            shim = fsshim.FsShim(run, payload_parent, fault_reads=True,
+                                 read_faults=True, crashes=False)
+            outcome = "returned"
+            try:
+                sys.stdout = FaultyOut(run) if g["progress"] else tf.NULL
+                sys.stderr = tf.NULL
+                with shim:
+                    t = tf.CREATORS[creator](path=path, piece_length=P,
+                                             outfile=of,
+                                             progress=g["progress"], **kw)
+                    t.write()
+            except BaseException as e:  # noqa
+                outcome = "raised:" + type(e).__name__
+            finally:
+                sys.stdout, sys.stderr = so, se
+            raw = None
+            if os.path.isfile(of):
+                with open(of, "rb") as f:
+                    raw = f.read()
+            import shutil
+            shutil.rmtree(parent, ignore_errors=True)
+            return outcome, raw, shim.fault
+
+        ex = e2.Explorer(1, max_runs=20000)
+        for run, (outcome, raw, fault) in ex.explore(one):
+            res.states += 1
+            res.transitions += 1
+            res.evals += 1
+            res.validated += 1
+            dev = [lab for c, (n, lab) in zip(run.choices, run.points) if c]
+            what = (dev[0].split(":")[0] if dev else "no-fault")
+            probs = []
+            if outcome == "returned":
+                if raw is None:
+                    probs = [("returned-without-metafile", None)]
+                else:
+                    probs = judge(oracle, raw, tree, P, REAL_B,
+                                  world.ROOT_NAME)
+            elif raw is not None and what != "no-fault":
+                # failed, yet left a metafile: it must still be a true one
+                probs = judge(oracle, raw, tree, P, REAL_B, world.ROOT_NAME)
+            res.outcomes[f"{what}/{outcome.split(':')[0]}/"
+                         f"{'ok' if not probs else probs[0][0]}"] += 1
+            for p, d in probs:
+                res.violation(
+                    f"{self.id}|{label}|{p}|after-fault:{what}|progress="
+                    f"{g['progress']}",
+                    {"kind": "iofault", "label": label,
+                     "progress": g["progress"], "seed": seed,
+                     "vector": [[c, list(pt)] for c, pt in
+                                zip(run.choices, run.points)]},
+                    {"outcome": outcome, "fault": fault, "detail": d})
+        res.sample({"kind": "iofault", "label": label,
+                    "progress": g["progress"], "runs": ex.runs})
+        return res
+
     def run_group(self, g):
+        if g["kind"] == "iofault":
+            return self.run_iofault(g)
         res = core.Result()
         seed = g["seed"]
         if g["kind"] == "dense":
@@ -432,6 +542,13 @@ class CreateCheck:
         return res
 
     def replay(self, case):
+        if case.get("kind") == "iofault":
+            r = self.run_iofault({"label": case["label"],
+                                  "progress": case["progress"],
+                                  "seed": case["seed"]})
+            return [{"sig": v["sig"], "detail": v["detail"]}
+                    for v in r.violations
+                    if v["case"]["vector"] == case["vector"]]
         obs, _ = self.observe(case["world"], case["seed"],
                               cli=case.get("cli", False),
                               listing=case.get("listing", "native"))
